@@ -16,9 +16,34 @@ const (
 	Plain Mode = iota // []T, map[K]V, struct{...} with the preferred scalar types
 	Ptr               // pointer elements (*T), so that null elements are expressible
 	Iface             // []interface{} / map[interface{}]interface{} holding the canonical values
+	Untagged          // as Plain, but a UDT is a struct WITHOUT tags whose fields are declared in reverse order and matched by (case-insensitive) name
+	Seq               // as Iface, but a UDT is a []interface{} (fields by position), like a tuple
 )
 
-func (m Mode) String() string { return [...]string{"plain", "ptr", "iface"}[m] }
+func (m Mode) String() string { return [...]string{"plain", "ptr", "iface", "untagged", "seq"}[m] }
+
+// Modes lists every composite shape, simplest first.
+func Modes() []Mode { return []Mode{Plain, Ptr, Iface, Untagged, Seq} }
+
+// Nullable reports whether the shape can hold a NULL element.
+func (m Mode) Nullable() bool { return m == Ptr || m == Iface || m == Seq }
+
+// udtFieldName is the Go name of the untagged struct field that matches UDT field n.
+func udtFieldName(n string) string { return strings.ToUpper(n[:1]) + n[1:] }
+
+// structField locates the field of struct type t that holds UDT field names[i] (tuples: position i).
+func structField(t reflect.Type, names []string, i int) int {
+	if names == nil {
+		return i
+	}
+	for k := 0; k < t.NumField(); k++ {
+		f := t.Field(k)
+		if f.Tag.Get("cassandra") == names[i] || (f.Tag == "" && strings.EqualFold(f.Name, names[i])) {
+			return k
+		}
+	}
+	return -1
+}
 
 var tIface = reflect.TypeOf((*interface{})(nil)).Elem()
 
@@ -52,7 +77,7 @@ func GoType(dt datatype.DataType, m Mode) (reflect.Type, bool) {
 			if t.Kind() != reflect.Ptr && t.Kind() != reflect.Slice && t.Kind() != reflect.Map {
 				return reflect.PtrTo(t), true
 			}
-		case Iface:
+		case Iface, Seq:
 			return tIface, true
 		}
 		return t, true
@@ -88,7 +113,7 @@ func GoType(dt datatype.DataType, m Mode) (reflect.Type, bool) {
 		if len(x.FieldTypes) == 0 {
 			return nil, false // CQL has no zero-field tuples; their encoding would be indistinguishable from NULL
 		}
-		if m == Iface {
+		if m == Iface || m == Seq {
 			return reflect.SliceOf(tIface), true
 		}
 		var fs []reflect.StructField
@@ -106,6 +131,20 @@ func GoType(dt datatype.DataType, m Mode) (reflect.Type, bool) {
 		}
 		if m == Iface {
 			return reflect.MapOf(reflect.TypeOf(""), tIface), true
+		}
+		if m == Seq {
+			return reflect.SliceOf(tIface), true
+		}
+		if m == Untagged {
+			var fs []reflect.StructField
+			for i := len(x.FieldTypes) - 1; i >= 0; i-- {
+				t, ok := elem(x.FieldTypes[i])
+				if !ok || x.FieldNames[i] == "" {
+					return nil, false
+				}
+				fs = append(fs, reflect.StructField{Name: udtFieldName(x.FieldNames[i]), Type: t})
+			}
+			return reflect.StructOf(fs), true
 		}
 		var fs []reflect.StructField
 		for i, ft := range x.FieldTypes {
@@ -217,11 +256,15 @@ func buildFields(fts []datatype.DataType, names []string, a AV, t reflect.Type) 
 	case reflect.Struct:
 		s := reflect.New(t).Elem()
 		for i, e := range a.Elems {
-			v, ok := Build(fts[i], e, t.Field(i).Type)
+			k := structField(t, names, i)
+			if k < 0 {
+				return reflect.Value{}, false
+			}
+			v, ok := Build(fts[i], e, t.Field(k).Type)
 			if !ok {
 				return reflect.Value{}, false
 			}
-			s.Field(i).Set(v)
+			s.Field(k).Set(v)
 		}
 		return s, true
 	case reflect.Slice:
@@ -303,7 +346,12 @@ func abstractFields(fts []datatype.DataType, names []string, v reflect.Value) AV
 	switch v.Kind() {
 	case reflect.Struct:
 		for i := range fts {
-			a.Elems = append(a.Elems, Abstract(fts[i], v.Field(i)))
+			k := structField(v.Type(), names, i)
+			if k < 0 {
+				a.Elems = append(a.Elems, AV{Kind: 'S', B: []byte("missing struct field " + names[i])})
+				continue
+			}
+			a.Elems = append(a.Elems, Abstract(fts[i], v.Field(k)))
 		}
 	case reflect.Slice, reflect.Array:
 		if v.Kind() == reflect.Slice && v.IsNil() {
